@@ -47,11 +47,27 @@ MCQuick ==
 
 MCQuickFlap == FamFlap({C, WC}, Sco2, Flap2, {F}) \cup FamFlap({C}, Sco2, Flap2, {T})
 
-(* observation: the restore as it was before fix 06befa5 (RestoreKeepsEpisodeStart = FALSE) *)
-MCRestoreObs == FamEmit({C}, Sco2, {2})
+(* 5. stateful reset conditions "count() >= k" (stream, no filters: ConfigOK) *)
+Plain(h, r) == MkCfg(h, r, F, 0, F, F, F, 0, 0, 2, F)
+FamStateful ==
+    { WithRK(Plain(C, <<F, F, T>>), <<0, 0, 2>>),
+      WithRK(Plain(C, <<F, F, T>>), <<0, 0, 3>>),
+      WithRK(Plain(WC, <<F, T, T>>), <<0, 2, 0>>),       \* warn stateful, crit stateless
+      WithRK(Plain(WC, <<F, T, T>>), <<0, 2, 2>>) }
 
-MCQuickAll == MCQuick \cup MCQuickFlap
-ASSUME QuickStatic == LevelRuleStatic /\ FlapNoBoundary
+(* 6. inline handlers (anonymous topic) besides the named topic, stream and batch *)
+FamInline ==
+    { WithInline(MkCfg(C, NoRst, s[1], s[2], nr, F, F, 0, 0, 2, b)) :
+        s \in { <<F, 0>>, <<T, 0>> }, nr \in BOOLEAN, b \in BOOLEAN }
+
+(* observations: named deviations of Impl (constant Variant) must break "their" invariant *)
+MCRestoreObs == FamEmit({C}, Sco2, {2})         \* "restore-from-event-time"  -> EventCarries
+MCBatchFlapObs == FamFlap({C}, Sco2, Flap2, {T}) \* "batch-uses-stream-trigger" -> EmitIff
+MCStatefulObs == FamStateful                     \* "shared-reset-state"        -> LevelRule
+MCInlineObs == FamInline                         \* "stop-at-first-collect-error" -> NamedDelivery
+
+MCQuickAll == MCQuick \cup MCQuickFlap \cup FamStateful \cup FamInline
+ASSUME QuickStatic == LevelRuleStatic /\ FlapNoBoundary /\ ConfigsOK
 
 ALL == <<T, T, T>>
 FlapS == { <<25, 50, 2>>, <<30, 45, 3>> }
@@ -67,5 +83,5 @@ MCThoroughFlap ==
     FamFlap({C}, Sco3, Flap3, BOOLEAN)
     \cup FamFlap({WC}, Sco3, FlapS, {F}) \cup FamFlap({ALL}, Sco2, { <<25, 50, 2>> }, {F})
     \cup FamFlap({WC}, Sco2, { <<25, 50, 2>> }, {T})
-MCThoroughAll == MCThorough \cup MCThoroughFlap
+MCThoroughAll == MCThorough \cup MCThoroughFlap \cup FamStateful \cup FamInline
 =============================================================================
